@@ -14,6 +14,7 @@ from pv.ref import lex as rlex
 
 ID = 'C18'
 TITLE = 'Constant quoting, evaluation and typing'
+TECHNIQUE = 'bounded-exhaustive enumeration of all short strings / atom texts plus Hypothesis text; round-trip oracle evaluate(quote(x)) == x, one-STRING-token oracle under the real and the reference lexer, JSON-number-grammar reference for evaluate/type'
 RULE = ('cases: (a) every Python string of length <= L over a 19-symbol alphabet (quote, backslash, LF, TAB, NUL, '
         'DEL, e-acute, U+2028, U+0085, a lone surrogate, delimiters, blank, letter) [exhaustive], random long '
         'strings incl. surrogates, ints/floats, None -> quote(); (b) every atom text of length <= L over '
